@@ -52,11 +52,18 @@ pub struct Case {
     pub raw_incomplete_dirs: Vec<B>,
 }
 
+fn file_name_char(c: char) -> bool {
+    c != '/' && c != '\0'
+}
+
 fn dir_name() -> BoxedStrategy<String> {
     prop_oneof![
         5 => (prop::sample::select(vec!["foo", "py312-mysqlclient", "a-b-c", "p5-DBD-mysql", "x", "libnbcompat", "é", "-lead", "font-adobe-100dpi", "tex-2up", "lib-2", "3proxy", "a-1-b", "1-2"]), prop::sample::select(vec!["1.0", "2.2.4nb1", "0", "1.0nb12", "20240101", "1.0rc1", ""]))
             .prop_map(|(b, v)| format!("{}-{}", b, v)),
         1 => prop::sample::select(vec!["nodash", "+COMMENT", "pkgdb.byfile.db"]).prop_map(String::from),
+        // tokens of the library's own source as (parts of) the directory name
+        2 => (prop::sample::select(vec!["", "foo", "a-b", "lib"]), crate::engine::dict::string_token(file_name_char, "x"), prop::sample::select(vec!["", "-1.0", "-2nb1", ".db", "-"]))
+            .prop_map(|(a, t, b)| format!("{}{}{}", a, t, b)),
         3 => prop::collection::vec(prop::sample::select(vec!["a", "foo", "2up", "100dpi", "p5", "X", "é", "1", "nb1", "1.0", "", "0nb2", "rc1", "+x"]), 1..=4).prop_map(|v| v.join("-")),
     ]
     .boxed()
@@ -65,6 +72,7 @@ fn dir_name() -> BoxedStrategy<String> {
 fn content() -> BoxedStrategy<String> {
     prop_oneof![
         12 => prop::sample::select(vec!["", "A comment\n", "line1\nline2\n", "  padded  \n", "é ü\n", "12345\n", "@name foo-1.0\nbin/foo\n", "\n", "x"]).prop_map(String::from),
+        2 => (crate::engine::dict::string_token(|_| true, "a"), any::<bool>()).prop_map(|(t, nl)| if nl { format!("{}\n", t) } else { t }),
         // longer than any internal read buffer, with multi-byte characters at arbitrary offsets
         1 => (900usize..5000, 1usize..40, prop::sample::select(vec!["é", "€", "💖", "ü"])).prop_map(|(n, every, ch)| {
             let mut s = String::new();
